@@ -18,6 +18,7 @@
 
 """This provides ISO 8601 parsing functionality."""
 
+import math
 import re
 
 from . import data
@@ -573,6 +574,8 @@ class DurationParser(object):
                     if "," in value:
                         value = value.replace(",", ".")
                     value = float(value)
+                    if not math.isfinite(value):
+                        raise ISO8601SyntaxError("duration", expression)
                 result_map[key] = value * sign_factor
             return data.Duration(**result_map)
         if expression.startswith("P") and sign_factor != -1:
